@@ -372,6 +372,12 @@ pub enum PathKind {
     /// WebSocket server with an outbound queue of 1 whose peer reads nothing until every
     /// request of the pipeline was sent (responses pile up behind a full queue)
     WebSocketTight,
+    /// the same servers with their non-default options set (read/write timeouts far in the future;
+    /// the WebSocket connection served through the handshake + embedder-cancel entry point)
+    BlockingTcpTimeouts,
+    AsyncTcpTimeouts,
+    AsyncMemTimeouts,
+    WebSocketCancelHandshake,
 }
 
 impl PathKind {
@@ -382,6 +388,10 @@ impl PathKind {
             PathKind::AsyncMem => "async-mem",
             PathKind::WebSocket => "websocket",
             PathKind::WebSocketTight => "websocket-outbound-capacity-1",
+            PathKind::BlockingTcpTimeouts => "blocking-tcp+timeouts",
+            PathKind::AsyncTcpTimeouts => "async-tcp+timeouts",
+            PathKind::AsyncMemTimeouts => "async-mem+timeouts",
+            PathKind::WebSocketCancelHandshake => "websocket+cancel+handshake",
         }
     }
 }
@@ -396,6 +406,9 @@ pub struct Endpoint {
     _server: Option<repe::Server>,
 }
 
+/// far enough that no timeout can fire (one hour; virtual on the paused in-memory row)
+const FAR: Duration = Duration::from_secs(3600);
+
 static NEXT_SLOT: AtomicU64 = AtomicU64::new(100);
 
 impl Endpoint {
@@ -404,30 +417,41 @@ impl Endpoint {
         let router = build_router(&counters);
         let mut ep = Endpoint { kind, counters, addr: None, rt: None, mem_tx: None, shared: None, _server: None };
         match kind {
-            PathKind::BlockingTcp => {
-                let server = repe::Server::new(router);
+            PathKind::BlockingTcp | PathKind::BlockingTcpTimeouts => {
+                let mut server = repe::Server::new(router);
+                if kind == PathKind::BlockingTcpTimeouts {
+                    server = server.read_timeout(Some(FAR)).write_timeout(Some(FAR));
+                }
                 let listener = server.listen("127.0.0.1:0").expect("listen");
                 ep.addr = Some(listener.local_addr().unwrap());
                 std::thread::spawn(move || {
                     let _ = server.serve(listener);
                 });
             }
-            PathKind::AsyncTcp => {
+            PathKind::AsyncTcp | PathKind::AsyncTcpTimeouts => {
                 let rt = tokio::runtime::Builder::new_multi_thread().worker_threads(2).enable_all().build().unwrap();
                 let listener = rt.block_on(repe::AsyncServer::listen("127.0.0.1:0")).expect("listen");
                 ep.addr = Some(listener.local_addr().unwrap());
+                let mut server = repe::AsyncServer::new(router);
+                if kind == PathKind::AsyncTcpTimeouts {
+                    server = server.read_timeout(Some(FAR)).write_timeout(Some(FAR));
+                }
                 rt.spawn(async move {
-                    let _ = repe::AsyncServer::new(router).serve(listener).await;
+                    let _ = server.serve(listener).await;
                 });
                 ep.rt = Some(rt);
             }
-            PathKind::AsyncMem => {
+            PathKind::AsyncMem | PathKind::AsyncMemTimeouts => {
                 let rt = tokio::runtime::Builder::new_current_thread().enable_time().start_paused(true).build().unwrap();
                 let slot = NEXT_SLOT.fetch_add(1, Ordering::SeqCst) as u16;
                 let tx = repe::verif_io::register_listener(slot);
                 let listener = rt.block_on(repe::AsyncServer::listen(("127.254.77.1", slot))).expect("mem listen");
+                let mut server = repe::AsyncServer::new(router);
+                if kind == PathKind::AsyncMemTimeouts {
+                    server = server.read_timeout(Some(FAR)).write_timeout(Some(FAR));
+                }
                 rt.spawn(async move {
-                    let _ = repe::AsyncServer::new(router).serve(listener).await;
+                    let _ = server.serve(listener).await;
                 });
                 ep.mem_tx = Some(tx);
                 ep.rt = Some(rt);
@@ -439,7 +463,7 @@ impl Endpoint {
                 ep.shared = Some(repe::WebSocketServer::new(router).with_offreader_limit(0).with_outbound_capacity(1).into_shared());
                 ep.rt = Some(rt);
             }
-            PathKind::WebSocket => {
+            PathKind::WebSocket | PathKind::WebSocketCancelHandshake => {
                 let rt = tokio::runtime::Builder::new_current_thread().enable_time().build().unwrap();
                 // no off-reader cap here: saturation (ResourceExhausted at the cap) is C16's subject
                 ep.shared = Some(repe::WebSocketServer::new(router).with_offreader_limit(0).into_shared());
@@ -458,7 +482,7 @@ impl Endpoint {
             wire.extend_from_slice(&f.to_bytes());
         }
         match self.kind {
-            PathKind::BlockingTcp | PathKind::AsyncTcp => {
+            PathKind::BlockingTcp | PathKind::AsyncTcp | PathKind::BlockingTcpTimeouts | PathKind::AsyncTcpTimeouts => {
                 let mut s = std::net::TcpStream::connect(self.addr.unwrap()).map_err(|e| e.to_string())?;
                 s.set_read_timeout(Some(Duration::from_secs(10))).ok();
                 s.write_all(&wire).map_err(|e| e.to_string())?;
@@ -471,7 +495,7 @@ impl Endpoint {
                 }
                 Ok(fr)
             }
-            PathKind::AsyncMem => {
+            PathKind::AsyncMem | PathKind::AsyncMemTimeouts => {
                 let rt = self.rt.as_ref().unwrap();
                 let tx = self.mem_tx.as_ref().unwrap();
                 rt.block_on(async {
@@ -489,12 +513,20 @@ impl Endpoint {
                     Ok(fr)
                 })
             }
-            PathKind::WebSocket | PathKind::WebSocketTight => {
+            PathKind::WebSocket | PathKind::WebSocketTight | PathKind::WebSocketCancelHandshake => {
                 let rt = self.rt.as_ref().unwrap();
                 let shared = self.shared.as_ref().unwrap();
                 let tight = self.kind == PathKind::WebSocketTight;
                 rt.block_on(async {
-                    let mut c = wsh::connect(shared, Serve::Plain, None).await;
+                    let serve = if self.kind == PathKind::WebSocketCancelHandshake {
+                        Serve::WithCancelAndHandshake(repe::websocket_server::ShutdownToken::new(), {
+                            let req = tokio_tungstenite::tungstenite::http::Request::builder().uri("/repe").header("Host", "verif.mem").body(()).expect("request");
+                            repe::websocket_server::HandshakeContext::from_http_request(&req)
+                        })
+                    } else {
+                        Serve::Plain
+                    };
+                    let mut c = wsh::connect(shared, serve, None).await;
                     if tight {
                         // the peer accepts nothing from the server while it sends the first half
                         // of its requests, then lets the responses trickle out while it sends the rest
@@ -654,7 +686,7 @@ pub fn check_pipeline(ep: &Endpoint, letters: &[&Letter], tally: &mut Tally, ref
         bad.push(("C03:unsolicited-response".into(), format!("{ctx}: {} frame(s) with id {id} that no request used", rs.len())));
     }
     // arrival order for requests handled inline on the connection
-    let inline_expected: Vec<u64> = letters.iter().enumerate().filter(|(_, l)| !l.notify && !(matches!(ep.kind, PathKind::WebSocket | PathKind::WebSocketTight) && l.off_reader)).map(|(i, _)| 1000 + i as u64).collect();
+    let inline_expected: Vec<u64> = letters.iter().enumerate().filter(|(_, l)| !l.notify && !(matches!(ep.kind, PathKind::WebSocket | PathKind::WebSocketTight | PathKind::WebSocketCancelHandshake) && l.off_reader)).map(|(i, _)| 1000 + i as u64).collect();
     let inline_got: Vec<u64> = got.iter().map(|f| f.h.id).filter(|id| inline_expected.contains(id)).collect();
     if inline_got != inline_expected && inline_got.len() == inline_expected.len() {
         bad.push(("C03:inline-order".into(), format!("{ctx}: inline responses arrived as {inline_got:?}, requests were sent as {inline_expected:?}")));
@@ -668,7 +700,17 @@ pub fn run(tier: Tier) -> ! {
     let ctx = Ctx::new("C03", tier);
     let alpha = alphabet();
     let n = alpha.len();
-    let kinds = [PathKind::BlockingTcp, PathKind::AsyncTcp, PathKind::AsyncMem, PathKind::WebSocket, PathKind::WebSocketTight];
+    let kinds = [
+        PathKind::BlockingTcp,
+        PathKind::AsyncTcp,
+        PathKind::AsyncMem,
+        PathKind::WebSocket,
+        PathKind::WebSocketTight,
+        PathKind::BlockingTcpTimeouts,
+        PathKind::AsyncTcpTimeouts,
+        PathKind::AsyncMemTimeouts,
+        PathKind::WebSocketCancelHandshake,
+    ];
     // pipelines: singles, ordered pairs, then (thorough) triples over a sub-alphabet and long pipelines
     let mut pipelines: Vec<Vec<usize>> = Vec::new();
     for i in 0..n {
@@ -828,6 +870,10 @@ pub fn replay(case: &Value) -> Result<(), String> {
         "async-tcp" => PathKind::AsyncTcp,
         "async-mem" => PathKind::AsyncMem,
         "websocket-outbound-capacity-1" => PathKind::WebSocketTight,
+        "blocking-tcp+timeouts" => PathKind::BlockingTcpTimeouts,
+        "async-tcp+timeouts" => PathKind::AsyncTcpTimeouts,
+        "async-mem+timeouts" => PathKind::AsyncMemTimeouts,
+        "websocket+cancel+handshake" => PathKind::WebSocketCancelHandshake,
         _ => PathKind::WebSocket,
     };
     let p: Vec<usize> = case["pipeline"].as_array().ok_or("pipeline")?.iter().map(|v| v.as_u64().unwrap_or(0) as usize).collect();
